@@ -139,7 +139,7 @@ class Conv(Contract):
                 f = self.native(dict(case, dim=dd))
             else:
                 f = self.native(case)
-            arg = np.array([x, x]) if case["arg"] == "array" else x
+            arg = np.full((2, 3), x) if case["arg"] == "array" else x
             ret = f(arg)
             observed = repr(ret)
         except Exception as e:      # noqa: BLE001
@@ -154,7 +154,7 @@ class Conv(Contract):
             if not (isinstance(ret, np.ndarray) and ret.shape == arg.shape):
                 violated.append(f"array argument gives an array of the same shape (got {observed})")
                 return dict(violated=violated, observed=observed, inputs=inputs)
-            vals = [float(v) for v in ret]
+            vals = [float(v) for v in ret.flat]
         else:
             try:
                 vals = [float(ret)]
@@ -310,3 +310,31 @@ class NdFactoryVolume(NdFactoryRadius):
     def native(self, case):
         f = _sph().make_volume_from_radius_nd_compiled()
         return lambda r: f(r, case["dim"])
+
+
+@register
+class SurfaceOverloadDim1(Conv):
+    """The numba `@overload` of the dim == 1 surface helper: the implementation numba selects for an
+    array-typed / scalar-typed argument (this text, not the Python fallback, is what compiled code runs)."""
+    key = f"{MOD}:make_surface_from_radius_compiled.<ol_surface_from_radius>"
+    rel, argname = "surface_from_radius", "radius"
+    modular = False
+    takes_dim = False
+    dims = (1,)
+    fixed_dim = 1
+
+    def call(self, engine, run, fi, a, case):
+        from pyvc.values import SOpaque
+        is_arr = case["arg"] == "array"
+        typ = SOpaque("numba-type", attrs={"isinstance": lambda run, n: (n == "numba.types.Array") == is_arr
+                                           if n == "numba.types.Array" else False})
+        from pyvc.engine import Frame
+        from pyvc.values import SModule
+        from pyvc import source
+        clo = Frame(None, {"nb": SModule("numba")}, None, source.load_module(fi.module))
+        impl = engine.call_function(run, fi, [typ], {}, closure=clo)
+        run.trust("numba @overload: the returned implementation is what compiled code executes for that argument type")
+        return engine.invoke(run, impl, [a[self.argname]], {})
+
+    def native(self, case):
+        return _sph().make_surface_from_radius_compiled(1)
